@@ -368,8 +368,37 @@ func c18Closure(c *Ctx, decls map[*types.Func]*ast.FuncDecl) {
 			}
 			return true
 		})
+		// early returns ahead of the registration: only the nil test and the visited test
+		visitedParam := ""
+		if len(decl.Type.Params.List) > 1 && len(decl.Type.Params.List[1].Names) > 0 {
+			visitedParam = decl.Type.Params.List[1].Names[0].Name
+		}
+		earlyWhy := ""
+		for _, st := range decl.Body.List {
+			if es, ok := st.(*ast.ExprStmt); ok {
+				if call, ok := es.X.(*ast.CallExpr); ok && Callee(info, call) == pm {
+					break
+				}
+			}
+			ifs, ok := st.(*ast.IfStmt)
+			if !ok || !terminates(ifs.Body) {
+				continue
+			}
+			cond := types.ExprString(ifs.Cond)
+			if cond == param+" == nil" || (visitedParam != "" && strings.HasPrefix(cond, visitedParam+"[")) {
+				continue
+			}
+			earlyWhy = cond
+		}
+		if earlyWhy != "" {
+			registers = false
+		}
 		pos := c.P.Pos(decl.Pos())
-		r.Check(registers, "R18b", "collector registers the message it visits", pos, "collectMessageRecursive does not call processMessage(message) unconditionally after the visited test: a visited message gets no component schema")
+		if earlyWhy != "" {
+			r.Bad("R18b", "collector registers every message it is handed (no early return besides nil and visited)", pos,
+				"collectMessageRecursive returns before registering the message when `"+earlyWhy+"`: other builders still emit $ref / discriminator mappings to that message's schema (oneof variants, unwrapped map values, an RPC's input or output), which then do not resolve", nil)
+		}
+		r.Check(registers || earlyWhy != "", "R18b", "collector registers the message it visits", pos, "collectMessageRecursive does not call processMessage(message) unconditionally after the visited test: a visited message gets no component schema")
 		r.Check(followsField, "R18b", "collector follows the type of every message-typed field", pos,
 			"collectMessageRecursive: "+fieldWhy+": a message referenced by a field of a registered message has no component schema, its $ref dangles")
 		r.Check(followsNested, "R18b", "collector follows nested declarations", pos,
